@@ -199,19 +199,20 @@ Lemma bnodes_lookup b k e :
   NoDup (map snd (bproj b)) -> In (k, e) b -> tpath e <> [] ->
   assoc path_eqb (tpath e) (bnodes_of b) = Some (tnode e).
 Proof.
-  induction b as [|[k' e'] b IH]; simpl; [intros _ []|].
-  intros Hnd [Hin|Hin] Hne.
-  - inversion Hin; subst. destruct (tpath e) as [|a p] eqn:Ep; [contradiction|]. simpl.
-    assert (Hr : name_eqb a a && list_eqb name_eqb p p = true) by (apply (path_eqb_refl (a :: p))).
-    rewrite Hr. reflexivity.
-  - inversion Hnd; subst. destruct (tpath e') as [|a' p'] eqn:Ep'; simpl.
+  induction b as [|[k' e'] b IH]; [intros _ []|].
+  intros Hnd Hin Hne. simpl in Hnd. inversion Hnd as [|x l Hnotin Hnd']; subst.
+  destruct Hin as [Hin|Hin].
+  - inversion Hin; subst e' k'. clear IH. unfold bnodes_of. cbn [flat_map snd].
+    destruct (tpath e) as [|a p] eqn:Ep; [contradiction|]. cbn [app assoc].
+    rewrite path_eqb_refl. reflexivity.
+  - unfold bnodes_of. cbn [flat_map snd]. fold (bnodes_of b).
+    destruct (tpath e') as [|a' p'] eqn:Ep'; cbn [app].
     + apply IH; assumption.
-    + destruct (path_eqb (tpath e) (a' :: p')) eqn:E.
-      * apply path_eqb_spec in E. exfalso. apply H1. rewrite <- E.
+    + cbn [assoc]. destruct (path_eqb (tpath e) (a' :: p')) eqn:E.
+      * apply path_eqb_spec in E. exfalso. apply Hnotin. simpl. rewrite <- E.
         apply in_map_iff. exists (k, tpath e). split; [reflexivity|].
         unfold bproj. apply in_map_iff. exists (k, e). split; [reflexivity | assumption].
-      * unfold path_eqb in E. simpl in E. destruct (tpath e) as [|a p] eqn:Ep; [contradiction|].
-        simpl. simpl in E. rewrite E. rewrite <- Ep. apply IH; try assumption. rewrite Ep. discriminate.
+      * apply IH; assumption.
 Qed.
 
 Theorem bzr_revert_restores_basis s st s' :
@@ -229,11 +230,13 @@ Proof.
     pose proof (vt_root _ _ Hb) as Hr. apply (in_map fst) in Hr. simpl in Hr.
     unfold i. rewrite map_map. simpl. unfold bproj in Hr. rewrite map_map in Hr. exact Hr. }
   (* what revert_disk returns starts with the basis nodes *)
-  unfold revert_disk in Erd.
-  match type of Erd with (if ?c then _ else _) = _ => destruct c; [discriminate|] end.
-  match type of Erd with (if ?c then _ else _) = _ => destruct c; [discriminate|] end.
-  match type of Erd with (if ?c then _ else _) = _ => destruct c; [|discriminate] end.
-  inversion Erd as [Hd']; clear Erd.
+  assert (Hpre : forall p v, assoc path_eqb p (bnodes_of (sbasis s)) = Some v -> assoc path_eqb p d' = Some v).
+  { unfold revert_disk in Erd.
+    match type of Erd with (if ?c then _ else _) = _ => destruct c; [discriminate|] end.
+    match type of Erd with (if ?c then _ else _) = _ => destruct c; [discriminate|] end.
+    match type of Erd with (if ?c then _ else _) = _ => destruct c; [|discriminate] end.
+    injection Erd as <-. intros p v Hp. apply assoc_app_l. exact Hp. }
+  clear Erd.
   assert (Hview : bzr_view {| sdisk := d'; sinv := match assoc Nat.eqb 0 i with Some _ => i | None => (0, ([], KD)) :: i end;
                               sindex := sindex s; sbasis := sbasis s; gbasis := gbasis s;
                               scommitted := scommitted s; snext := snext s |} = sbasis s).
@@ -241,12 +244,11 @@ Proof.
     unfold i. rewrite map_map. simpl. rewrite <- (map_id (sbasis s)) at 2. apply map_ext_in.
     intros [k e] Hin. simpl. f_equal. apply norm_read.
     - unfold basis_norm in Hnorm. rewrite Forall_forall in Hnorm. apply (Hnorm (k, e)). exact Hin.
-    - intros Hne. rewrite <- Hd'. destruct (tpath e) as [|a p] eqn:Ep; [contradiction|].
-      unfold dl. apply assoc_app_l. rewrite <- Ep. apply (bnodes_lookup (sbasis s) k e).
+    - intros Hne. destruct (tpath e) as [|a0 p0] eqn:Ep; [contradiction|].
+      unfold dl. apply Hpre. rewrite <- Ep. apply (bnodes_lookup (sbasis s) k e).
       + apply (vt_paths _ _ Hb).
       + exact Hin.
       + rewrite Ep. discriminate. }
-  rewrite Hd' in Hview.
   split; [exact Hview|]. apply bzr_status_same. cbn [sbasis]. symmetry. exact Hview.
 Qed.
 
